@@ -32,6 +32,26 @@ def _tail_returns_only(body):
     return False
 
 
+def _to_tail_form(body):
+    """`if c: A; return a` followed by R  ==  `if c: A; return a  else: R` (guard clauses back to if/else)"""
+    out = []
+    for i, st in enumerate(body):
+        if isinstance(st, ast.If) and not st.orelse and st.body and isinstance(st.body[-1], ast.Return) and i + 1 < len(body):
+            new = copy.copy(st)
+            new.body = _to_tail_form(st.body)
+            new.orelse = _to_tail_form(body[i + 1:])
+            out.append(new)
+            return out
+        if isinstance(st, ast.If):
+            new = copy.copy(st)
+            new.body = _to_tail_form(st.body)
+            new.orelse = _to_tail_form(st.orelse) if st.orelse else []
+            out.append(new)
+        else:
+            out.append(st)
+    return out
+
+
 def _replace_returns(body, name):
     out = []
     for st in body:
@@ -83,6 +103,7 @@ def _inline_call(stmt, call, helper, caller_names, counter):
                 return None
             bound[p] = defaults[p]
     body = [st for st in helper.body if not (isinstance(st, ast.Expr) and isinstance(st.value, ast.Constant))]
+    body = _to_tail_form(body)
     procedure = not any(isinstance(n, (ast.Return, ast.Yield, ast.YieldFrom)) for st in body for n in ast.walk(st))
     if procedure:
         if not (isinstance(stmt, ast.Expr) and stmt.value is call):
@@ -121,6 +142,25 @@ def _inline_call(stmt, call, helper, caller_names, counter):
     return pre + body + [new_stmt]
 
 
+def _chain_set(st):
+    """`x = set(chain.from_iterable(GEN))` / `return set(chain.from_iterable(GEN))` / set().union(*GEN) -> (name, GEN, is_return)"""
+    v = None
+    name = None
+    is_ret = False
+    if isinstance(st, ast.Return) and st.value is not None:
+        v, name, is_ret = st.value, '__acc', True
+    elif isinstance(st, ast.Assign) and len(st.targets) == 1 and isinstance(st.targets[0], ast.Name):
+        v, name = st.value, st.targets[0].id
+    if not (isinstance(v, ast.Call) and isinstance(v.func, ast.Name) and v.func.id in ('set', 'frozenset') and len(v.args) == 1):
+        return None
+    inner = v.args[0]
+    if isinstance(inner, ast.Call) and ast.unparse(inner.func) in ('chain.from_iterable', 'itertools.chain.from_iterable') \
+            and len(inner.args) == 1 and isinstance(inner.args[0], (ast.GeneratorExp, ast.ListComp)) \
+            and len(inner.args[0].generators) == 1:
+        return name, inner.args[0], is_ret
+    return None
+
+
 def _loopify(body):
     """transformation A on a statement list (recursively)"""
     out = []
@@ -137,6 +177,23 @@ def _loopify(body):
                 inner = [ast.If(test=c, body=inner, orelse=[])]
             out.append(ast.Assign(targets=[ast.Name(id=lst, ctx=ast.Store())], value=ast.List(elts=[], ctx=ast.Load()), lineno=getattr(st, "lineno", 0)))
             out.append(ast.For(target=g.target, iter=g.iter, body=inner, orelse=[], lineno=getattr(st, "lineno", 0)))
+            changed = True
+            continue
+        ch_ = _chain_set(st)
+        if ch_ is not None:
+            # [x =|return] set(chain.from_iterable(ELT for v in IT if C))  ->  acc = set(); for v in IT: if C: acc.update(ELT)
+            name, comp, is_ret = ch_
+            g = comp.generators[0]
+            inner = [ast.Expr(value=ast.Call(func=ast.Attribute(value=ast.Name(id=name, ctx=ast.Load()), attr='update', ctx=ast.Load()),
+                                             args=[comp.elt], keywords=[]))]
+            for c in reversed(g.ifs):
+                inner = [ast.If(test=c, body=inner, orelse=[])]
+            ln = getattr(st, "lineno", 0)
+            out.append(ast.Assign(targets=[ast.Name(id=name, ctx=ast.Store())],
+                                  value=ast.Call(func=ast.Name(id='set', ctx=ast.Load()), args=[], keywords=[]), lineno=ln))
+            out.append(ast.For(target=g.target, iter=g.iter, body=inner, orelse=[], lineno=ln))
+            if is_ret:
+                out.append(ast.Return(value=ast.Name(id=name, ctx=ast.Load()), lineno=ln))
             changed = True
             continue
         if isinstance(st, ast.Assign) and len(st.targets) == 1 and isinstance(st.targets[0], ast.Name) \
@@ -305,11 +362,11 @@ def inline_private_methods(repo, relpath, qual):
         return None
 
 
-def loopified(repo, relpath, qual):
+def loopified(repo, relpath, qual, raw=False):
     """FuncInfo of `qual` with its list/dict comprehension builders written as loops (in a rebuilt Repo); None when
     there is nothing to rewrite"""
     from .model import Repo
-    f = repo.fn(relpath, qual)
+    f = repo.fn(relpath, qual, raw=True) if raw else repo.fn(relpath, qual)
     tree = copy.deepcopy(f.module.tree)
     target = None
     for n in tree.body:
@@ -329,6 +386,139 @@ def loopified(repo, relpath, qual):
     srcs = dict(repo.sources)
     srcs[relpath] = ast.unparse(tree)
     try:
-        return Repo(srcs).fn(relpath, qual)
+        return Repo(srcs).fn(relpath, qual, raw=True)
     except Exception:
         return None
+
+
+def _literal_rows(e, fn, depth=0):
+    """e denotes a fixed sequence of tuples known at analysis time -> list of lists of exprs, else None"""
+    if depth > 3:
+        return None
+    if isinstance(e, (ast.Tuple, ast.List)) and e.elts and all(isinstance(x, (ast.Tuple, ast.List)) for x in e.elts):
+        return [list(x.elts) for x in e.elts]
+    if isinstance(e, ast.Name):
+        defs = [st for st in ast.walk(fn) if isinstance(st, ast.Assign) and len(st.targets) == 1
+                and isinstance(st.targets[0], ast.Name) and st.targets[0].id == e.id]
+        stores = [n for n in ast.walk(fn) if isinstance(n, ast.Name) and n.id == e.id and isinstance(n.ctx, ast.Store)]
+        if len(defs) == 1 and len(stores) == 1:
+            return _literal_rows(defs[0].value, fn, depth + 1)
+        return None
+    if isinstance(e, (ast.ListComp, ast.GeneratorExp)) and len(e.generators) == 1 and not e.generators[0].ifs \
+            and isinstance(e.elt, (ast.Tuple, ast.List)):
+        g = e.generators[0]
+        src = _literal_rows(g.iter, fn, depth + 1)
+        if src is None:
+            return None
+        out = []
+        for row in src:
+            m = _bind_target(g.target, row)
+            if m is None:
+                return None
+            out.append([_fold_str(_Subst(m).visit(copy.deepcopy(x))) for x in e.elt.elts])
+        return out
+    return None
+
+
+def _bind_target(t, row):
+    if isinstance(t, ast.Name):
+        return None
+    if isinstance(t, (ast.Tuple, ast.List)) and len(t.elts) == len(row) and all(isinstance(x, ast.Name) for x in t.elts):
+        return {x.id: v for x, v in zip(t.elts, row) if x.id != '_'}
+    return None
+
+
+class _Subst(ast.NodeTransformer):
+    def __init__(self, m):
+        self.m = m
+
+    def visit_Name(self, n):
+        if isinstance(n.ctx, ast.Load) and n.id in self.m:
+            return copy.deepcopy(self.m[n.id])
+        return n
+
+
+def _fold_str(e):
+    """'%s table' % 'left' -> 'left table' (constants only)"""
+    class T(ast.NodeTransformer):
+        def visit_BinOp(s_, n):
+            n = s_.generic_visit(n)
+            if isinstance(n.op, ast.Mod) and isinstance(n.left, ast.Constant) and isinstance(n.left.value, str):
+                args = n.right.elts if isinstance(n.right, ast.Tuple) else [n.right]
+                if all(isinstance(a, ast.Constant) for a in args):
+                    try:
+                        return ast.copy_location(ast.Constant(n.left.value % tuple(a.value for a in args)), n)
+                    except Exception:
+                        return n
+            if isinstance(n.op, ast.Add) and isinstance(n.left, ast.Constant) and isinstance(n.right, ast.Constant) \
+                    and isinstance(n.left.value, str) and isinstance(n.right.value, str):
+                return ast.copy_location(ast.Constant(n.left.value + n.right.value), n)
+            return n
+
+        def visit_Call(s_, n):
+            n = s_.generic_visit(n)
+            if isinstance(n.func, ast.Attribute) and n.func.attr == 'format' and isinstance(n.func.value, ast.Constant) \
+                    and isinstance(n.func.value.value, str) and not n.keywords and all(isinstance(a, ast.Constant) for a in n.args):
+                try:
+                    return ast.copy_location(ast.Constant(n.func.value.value.format(*[a.value for a in n.args])), n)
+                except Exception:
+                    return n
+            return n
+    return T().visit(e)
+
+
+def _unroll(body, fn):
+    out = []
+    changed = False
+    for st in body:
+        if isinstance(st, ast.For) and not st.orelse and not any(isinstance(x, (ast.Break, ast.Continue)) for x in ast.walk(st)):
+            rows = _literal_rows(st.iter, fn)
+            if rows is not None and len(rows) <= 6:
+                ok = True
+                chunks = []
+                for row in rows:
+                    m = _bind_target(st.target, row)
+                    if m is None:
+                        ok = False
+                        break
+                    chunks.append([_fold_str(_Subst(m).visit(copy.deepcopy(b))) for b in st.body])
+                if ok:
+                    for ch in chunks:
+                        out.extend(ch)
+                    changed = True
+                    continue
+        out.append(st)
+    return out, changed
+
+
+def unrolled(repo, f):
+    """f with its loops over literal sequences of tuples (`for (label, table) in (('left table', ltable), ..)`, also
+    through a local bound once to such a sequence or to a comprehension over one) written out, in a rebuilt Repo; f
+    itself when there is nothing to unroll"""
+    from .model import Repo
+    if f.cls is not None or f.outer is not None:
+        return f
+    if not any(isinstance(n, ast.For) and isinstance(n.target, (ast.Tuple, ast.List)) for n in f.node.body):
+        return f
+    cache = repo.__dict__.setdefault('_unrolled', {})
+    k = (f.module.relpath, f.qual)
+    if k in cache:
+        return cache[k] or f
+    cache[k] = None
+    tree = copy.deepcopy(f.module.tree)
+    target = [n for n in tree.body if isinstance(n, ast.FunctionDef) and n.name == f.name]
+    if not target:
+        return f
+    body, ch = _unroll(target[0].body, target[0])
+    if not ch:
+        return f
+    # the helper sequences are no longer needed when nothing else reads them (harmless if they stay)
+    target[0].body = body
+    ast.fix_missing_locations(tree)
+    srcs = dict(repo.sources)
+    srcs[f.module.relpath] = ast.unparse(tree)
+    try:
+        cache[k] = Repo(srcs).fn(f.module.relpath, f.qual)
+    except Exception:
+        cache[k] = None
+    return cache[k] or f
